@@ -73,9 +73,10 @@ class Explorer:
 
     def one(self, strategy, cfg, tc, file0, verdicts, clock=(), exc_class=TestRaised,
             atom="line", stream="run", load=False, extra="", model=True, cap=5000,
-            replay=False, auto_tmp=False):
+            replay=False, auto_tmp=False, hooks=("init", "cleanup"), log_level=None):
         run = impl_run(strategy, cfg, tc, file0, verdicts, clock=clock, exc_class=exc_class,
-                       atom=atom, load=load, cap=cap, auto_tmp=auto_tmp)
+                       atom=atom, load=load, cap=cap, auto_tmp=auto_tmp, hooks=hooks, log_level=log_level)
+        run.hooks = tuple(hooks)
         ctx = {"strategy": strategy, "cfg": cfg, "tc": tc if not load else run.loaded,
                "file0": file0, "verdicts": verdicts, "clock": list(clock), "atom": atom,
                "exc_class": exc_class.__name__, "load": load}
@@ -175,8 +176,9 @@ def oracle_c02(ck, ctx, run):
     want = last_accepted(ctx, run)
     ev = run.events
     ti = [i for i, e in enumerate(ev) if e.startswith("T ")]
-    ok_hooks = (ev.count("I") == 1 and ev.count("X") == 1
-                and (not ti or (ev.index("I") < ti[0] and ev.index("X") > ti[-1])))
+    hk = getattr(run, "hooks", ("init", "cleanup"))
+    ok_hooks = (ev.count("I") == (1 if "init" in hk else 0) and ev.count("X") == (1 if "cleanup" in hk else 0)
+                and (not ti or (("init" not in hk or ev.index("I") < ti[0]) and ("cleanup" not in hk or ev.index("X") > ti[-1]))))
     if run.final != want or not ok_hooks:
         ck.violation(f"after an abort ({run.exc}) file={run.final!r} want={want!r} hooks_ok={ok_hooks}",
                      replay_doc(ctx, run, want=want.hex(), got=run.final.hex()))
@@ -194,6 +196,11 @@ def oracle_c11(ck, ctx, run):
             run.seen or run.rc != 0 or run.writes):
         ck.violation(f"nothing to reduce (no reducible atom) but {run.tests} test(s) ran, status {run.rc}, "
                      f"{run.writes} write(s); expected no test and status 0", replay_doc(ctx, run))
+        return
+    if run.exc not in (None, "test", "CapHit", "Hang") and not any(a == "R" for _, _, a in run.seen):
+        # the run ended with an exception although no test raised: there is no exit status at all
+        ck.violation(f"{ctx['strategy']}: the run ended with {run.exc} instead of an exit status (tests={run.tests}, "
+                     f"a later candidate accepted = {any(a == 'Y' for _, _, a in run.seen[1:])})", replay_doc(ctx, run))
         return
     if run.exc is not None or not run.seen:
         if run.exc is None and not run.seen and ctx["strategy"] != "check-only":
@@ -486,7 +493,7 @@ def make_oracle_c13(f_of):
                 or run.seen[0][2] != "Y":
             return
         cfg = ctx["cfg"]
-        if cfg.get("min", 1) != 1 or cfg.get("repeat", "last") == "never" or cfg.get("move"):
+        if cfg.get("min", 1) != 1 or cfg.get("repeat", "last") == "never":
             return
         if cfg.get("limit") is not None:
             # a limit that was never exceeded by any reading of the (scripted) clock changes nothing
